@@ -304,6 +304,69 @@ def score_cases(n):
 
 
 # ---------------------------------------------------------------------------------------------
+# nesting shapes: how n parts are distributed over a list of parts and (nested) part groups
+
+def _nest_items(n, d):
+    """items (a part = None, a group = list of items) with n parts and at most d levels of groups"""
+    out = []
+    if n == 1:
+        out.append(None)
+    if d > 0:
+        out.extend(_nest_forests(n, d - 1))
+    return out
+
+
+def _nest_forests(n, d):
+    """non-empty sequences of items with n parts in total (groups of one element included)"""
+    out = []
+    for k in range(1, n + 1):
+        for first in _nest_items(k, d):
+            if k == n:
+                out.append([first])
+            else:
+                for rest in _nest_forests(n - k, d):
+                    out.append([first] + rest)
+    return out
+
+
+def nest_shapes(n, depth):
+    """every shape of a part list with n parts, groups nested at most `depth` deep, as nested lists: the outer
+    list is the part list, an inner list a PartGroup, an int the index of a part (numbered left to right)"""
+    out = []
+    for f in _nest_forests(n, depth):
+        k = [0]
+
+        def rec(x):
+            if x is None:
+                k[0] += 1
+                return k[0] - 1
+            return [rec(y) for y in x]
+
+        out.append([rec(x) for x in f])
+    return out
+
+
+def nest_depth(shape):
+    """levels of groups in a shape (0 = flat list of parts)"""
+    return max((1 + nest_depth(x) for x in shape if isinstance(x, list)), default=0)
+
+
+def nest_items(case):
+    """item specs of a score-nest case: parts as in score_items, groups following case['shape']"""
+    parts = [score_part_spec("P%d" % i, q, c, case["meter"]) for i, (q, c) in enumerate(zip(case["q"], case["c"]))]
+    count = [0]
+
+    def rec(x, level):
+        if not isinstance(x, list):
+            return parts[x]
+        count[0] += 1
+        g = {"symbol": "brace" if level % 2 else "bracket", "name": "g%d" % count[0], "number": count[0]}
+        return {"group": g, "children": [rec(y, level + 1) for y in x]}
+
+    return [rec(x, 0) for x in case["shape"]]
+
+
+# ---------------------------------------------------------------------------------------------
 # inverse direction: note arrays of <= 3 rows
 
 def inverse_rows(onsets, durs):
